@@ -45,15 +45,16 @@ var (
 // values it computes for itself. It is a pure function of (hint, number of
 // outputs, input value), so the solver's scheduling cannot influence it.
 type HintStrategy struct {
-	NB        string     `json:"nb,omitempty"`        // honest | plus_kr | flip | digit2 | other | zero | ones
-	K         int        `json:"k,omitempty"`         // multiple of r for plus_kr
-	J         int        `json:"j,omitempty"`         // bit position for flip / digit2
-	N         int        `json:"n,omitempty"`         // only decompositions with N outputs (0 = all)
-	OnlyValue *big.Int   `json:"onlyValue,omitempty"` // only when the decomposed value equals this
-	Other     *big.Int   `json:"other,omitempty"`     // value whose bits are answered for "other"
-	Digits    []*big.Int `json:"digits,omitempty"`    // explicit digits answered for "digits" (may be non-boolean)
-	IZ        string     `json:"iz,omitempty"`        // honest | zero | one | invplus1 | value
-	IZValue   *big.Int   `json:"izValue,omitempty"`
+	NB         string     `json:"nb,omitempty"`         // honest | plus_kr | flip | digit2 | other | zero | ones
+	K          int        `json:"k,omitempty"`          // multiple of r for plus_kr
+	J          int        `json:"j,omitempty"`          // bit position for flip / digit2
+	N          int        `json:"n,omitempty"`          // only decompositions with N outputs (0 = all)
+	OnlyValue  *big.Int   `json:"onlyValue,omitempty"`  // only when the decomposed value equals this
+	OnlyValues []*big.Int `json:"onlyValues,omitempty"` // only when the decomposed value is one of these
+	Other      *big.Int   `json:"other,omitempty"`      // value whose bits are answered for "other"
+	Digits     []*big.Int `json:"digits,omitempty"`     // explicit digits answered for "digits" (may be non-boolean)
+	IZ         string     `json:"iz,omitempty"`         // honest | zero | one | invplus1 | value
+	IZValue    *big.Int   `json:"izValue,omitempty"`
 }
 
 func (s *HintStrategy) Honest() bool {
@@ -75,12 +76,26 @@ func (s *HintStrategy) nbits(field *big.Int, inputs, outputs []*big.Int) error {
 		return nil
 	}
 	n := len(outputs)
-	if s.N != 0 && s.N != n {
+	if s.N > 0 && s.N != n {
+		return nil
+	}
+	if s.N < 0 && -s.N == n { // negative N: every width except -N
 		return nil
 	}
 	v := inputs[0]
 	if s.OnlyValue != nil && s.OnlyValue.Cmp(v) != 0 {
 		return nil
+	}
+	if len(s.OnlyValues) > 0 {
+		found := false
+		for _, ov := range s.OnlyValues {
+			if ov.Cmp(v) == 0 {
+				found = true
+			}
+		}
+		if !found {
+			return nil
+		}
 	}
 	setBits := func(x *big.Int) {
 		for i := 0; i < n; i++ {
